@@ -1,13 +1,13 @@
 #!/bin/bash
-# try_mutant.sh <property> <mutant-dir> [tier] [extra properties...]
+# try_mutant.sh <property> <mutant-dir> <scratch-worktree> [tier] [extra properties...]
 # 1. in the mutant's own scratch worktree: patch applies, tree builds, the existing suite passes,
 #    the demonstration fails with the patch and passes without it;
 # 2. runs the property's check (and any extra ones) against that worktree with the patch applied.
 # Prints one JSON line with the outcome.
 set -u
-P=$1; D=$(realpath "$2"); TIER=${3:-quick}; shift; shift; shift || true
+P=$1; D=$(realpath "$2"); WT=$(realpath "$3"); TIER=${4:-quick}; shift; shift; shift; shift || true
 EXTRA="$@"
-WT=$(dirname "$D")
+case "$D" in "$WT"/*) echo "mutant dir must live outside the worktree (go test ./... would pick it up)"; exit 2;; esac
 export GOFLAGS=-mod=mod GOPROXY=off GOSUMDB=off GOTOOLCHAIN=local GOLOG_LOG_LEVEL=fatal
 log=$D/verify.log; : > $log
 fail() { echo "{\"property\":\"$P\",\"dir\":\"$D\",\"ok\":false,\"why\":\"$1\"}"; exit 0; }
@@ -24,7 +24,7 @@ rm -f $pkgdir/zz_mutant_demo_test.go
 [ $npass -eq 3 ] || fail "demo does not pass on the unchanged tree ($npass/3)"
 git apply $D/patch.diff
 go build ./... >>$log 2>&1 || { git checkout -q -- .; fail "does not compile"; }
-suite=0; for i in 1 2; do timeout 600 go test -vet=off -count=1 ./... >>$log 2>&1 && suite=$((suite+1)); done
+suite=0; for i in 1 2; do timeout 600 go test -vet=off -count=1 . ./httpio ./auth >>$log 2>&1 && suite=$((suite+1)); done
 [ $suite -eq 2 ] || { git checkout -q -- .; fail "existing suite fails with the patch ($suite/2)"; }
 cp $D/demo_test.go $pkgdir/zz_mutant_demo_test.go
 nfail=0; for i in 1 2 3 4 5; do (cd $pkgdir && timeout 150 go test -vet=off -count=1 -run '^TestMutantDemo$' -timeout 120s . >>$log 2>&1) || nfail=$((nfail+1)); done
